@@ -134,6 +134,33 @@ def rows_of(sel, n):
 
 
 def exercise(case):
+    """a case may ask for PROCESS-LEVEL resource limits of the caller (batch nodes and notebook servers run their workers under `ulimit -v`):
+    as_limit = soft RLIMIT_AS in bytes for the duration of the case.  The limit is only set when the worker's present address space leaves
+    2 GiB of head room under it (otherwise the case runs without it and says so) -- a limit that makes allocations fail would be a fault
+    injected by the harness, not a property of the code."""
+    lim = case.get("as_limit")
+    if not lim:
+        return _exercise(case)
+    import resource
+
+    old = resource.getrlimit(resource.RLIMIT_AS)
+    vm = 0
+    for line in open("/proc/self/status"):
+        if line.startswith("VmSize:"):
+            vm = int(line.split()[1]) * 1024
+    applied = vm + (2 << 30) <= lim and (old[1] == resource.RLIM_INFINITY or lim <= old[1])
+    if applied:
+        resource.setrlimit(resource.RLIMIT_AS, (lim, old[1]))
+    try:
+        out = _exercise(case)
+    finally:
+        if applied:
+            resource.setrlimit(resource.RLIMIT_AS, old)
+    out["as_limit_applied"] = applied
+    return out
+
+
+def _exercise(case):
     """case: dict(level, kind, sample, images=[(pol, scan, n, p)], rpc, seed, fss=[...], sels=[...], cut=None|(image idx, len),
     which image(s) to load: all"""
     import ceos_alos2
